@@ -33,6 +33,7 @@ def run(run, model):
     from . import fwd
     run.do(fwd.forwarding, model, "C06.configured-repr", ("a_repr",))
     run.do(rec.simple_nodes, model)
+    run.do(rec.formatted_value, model)
     run.do(rec.all_trace, model, "C06.all-trace")
     run.minimum("C06.optable", 27)
     run.minimum("C06.chain", 1)
